@@ -248,7 +248,7 @@ def main(args):
                                         ','.join(desc['grounded']) or '-', ''.join(map(str, desc['nseg'])))
             specs.append((name, wires, gnd))
             ntopo += 1
-    cat = [(g, g, None) for g in ('G2', 'G3', 'G4', 'G5', 'G6', 'G9', 'G10', 'G11', 'G12', 'G13', 'G25', 'G26', 'G27', 'G21', 'G22')]
+    cat = [(g, g, None) for g in ('G2', 'G3', 'G4', 'G5', 'G6', 'G9', 'G10', 'G11', 'G12', 'G13', 'G25', 'G26', 'G27', 'G21', 'G22', 'G31')]
     chunks = [('topo', specs[i::15], qt) for i in range(15)] + [('cat', cat, qt)]
     with mp.Pool(min(16, os.cpu_count() or 1)) as pool:
         results = pool.map(job, chunks, chunksize=1)
